@@ -14,7 +14,6 @@ import (
 	"verif/harness"
 	_ "verif/props/all"
 	"verif/props/c18"
-	"verif/props/c20"
 )
 
 var (
@@ -64,7 +63,6 @@ func bubble(t *testing.T) func(p harness.Prop, c *harness.Case) *harness.Outcome
 
 func TestSim(t *testing.T) {
 	c18.Quiesce = synctest.Wait
-	c20.Quiesce = synctest.Wait
 	if *fReplay != "" {
 		rc := harness.Replay(*fReplay, bubble(t))
 		os.Exit(rc)
